@@ -558,6 +558,24 @@ def handle_closed_in_scope(ctx: Ctx):
                         nm = a.targets[0].id
                         ok = any(isinstance(it.context_expr, ast.Name) and it.context_expr.id == nm for w in withs for it in w.items)
             if not ok:
+                # `f = storage.file_handle(...)` + `try: ... finally: f.close()` (or contextlib.closing(f) / ExitStack.enter_context(f))
+                for a in walk_local(m.node):
+                    if isinstance(a, ast.Assign) and a.value is call and len(a.targets) == 1 and isinstance(a.targets[0], ast.Name):
+                        nm = a.targets[0].id
+                        for t in [t for t in walk_local(m.node) if isinstance(t, ast.Try) and t.finalbody]:
+                            closes = [c for st in t.finalbody for c in ast.walk(st) if isinstance(c, ast.Call) and isinstance(c.func, ast.Attribute)
+                                      and c.func.attr == 'close' and isinstance(c.func.value, ast.Name) and c.func.value.id == nm]
+                            if closes and t.finalbody and any(x is closes[0] for x in ast.walk(t.finalbody[0])):
+                                ok = True
+                        for c in calls_in(m.node):
+                            d = (dotted(c.func) or '').split('.')[-1]
+                            if d in ('closing', 'enter_context') and c.args and isinstance(c.args[0], ast.Name) and c.args[0].id == nm:
+                                ok = True
+                d0 = None
+                for c in calls_in(m.node):
+                    if (dotted(c.func) or '').split('.')[-1] in ('closing', 'enter_context') and c.args and c.args[0] is call:
+                        ok = True
+            if not ok:
                 # returned to the caller (a helper that opens): the caller is responsible
                 ok = any(isinstance(r, ast.Return) and r.value is call for r in walk_local(m.node))
             yield ctx.ob('C12.HANDLE-CLOSED-IN-SCOPE', ok, m, call, f'{src(call)[:50]} closed by a with statement',
